@@ -4,7 +4,7 @@
    control-structure operators by the step-level correspondence of checks/C05.py. *)
 From Coq Require Import String Ascii.
 From Coq Require Import ZArith List Bool.
-From SqfVerif Require Import Gen.DiagCodes Gen.Overloads VM.VmDefs VM.VmExec VM.C05Proofs VM.C05Regions.
+From SqfVerif Require Import Gen.DiagCodes Gen.Overloads VM.VmDefs VM.VmExec VM.C05Proofs VM.C05Regions VM.C05ExitValue.
 Import ListNotations.
 Local Open Scope string_scope.
 Local Open Scope list_scope.
@@ -82,6 +82,27 @@ Theorem C05_loops_do_not_accumulate : forall b r c br b' r' c', enact b r c = Ok
 Proof. exact restarts_start_empty. Qed.
 Print Assumptions C05_loops_do_not_accumulate.
 
+(* A finished scope yields exactly one value also to the exit behaviour that ends it (count, select, apply, findIf, isNil, the
+   condition of while, waitUntil): when the scope's own part of the operand stack is empty - the last statement left no value and a
+   separator or the restart of the round had removed everything - the behaviour does exactly what it does on a part that holds nil.
+   The value of a block does not depend on how many statements precede its value-less last statement. *)
+Theorem C05_exit_behaviour_finds_nil : forall b r c, exit_value_missing r = false -> takes_value b = true ->
+  c_frames c <> [] -> height c = top_base c ->
+  pop_value c = None /\ pop_value (push_value c VNil) = Some (VNil, c) /\ enact b r c = enact b r (push_value c VNil).
+Proof.
+  intros b r c SW TV NE H. split; [apply pop_none_of_empty; split; assumption|].
+  split; [apply pop_push_of_empty; split; assumption|apply enact_empty_is_nil; [assumption|assumption|split; assumption]].
+Qed.
+Print Assumptions C05_exit_behaviour_finds_nil.
+
+(* ... and no exit behaviour, on any stack, reports a missing value: what enact adds to the log is at most one diagnostic, and never
+   CallstackFoundNoValue (the error that ended the script). *)
+Theorem C05_exit_behaviour_never_misses_a_value : forall b r c br b' r' c', exit_value_missing r = false ->
+  enact b r c = Ok (br, b', r', c') ->
+  exists added, r_out r' = added ++ r_out r /\ ~ In (EDiag (fst d_CallstackFoundNoValue) (snd d_CallstackFoundNoValue)) added.
+Proof. intros b r c br b' r' c' SW H. apply adds_spec. eapply enact_never_misses; eassumption. Qed.
+Print Assumptions C05_exit_behaviour_never_misses_a_value.
+
 (* What was wrong before the repairs (defect switches on): a block ending in an assignment yielded no value ... *)
 Definition prog_block_value : list stmt :=
   [SAssign "x" (EUnary "call" (ECode [SAssign "a" (ENum 1); SAssign "b" (ENum 2)]))].
@@ -105,6 +126,28 @@ Theorem C05_breakout_clears_regions_refuted_before_repair :
 Proof. split; [vm_compute; discriminate|vm_compute; reflexivity]. Qed.
 Print Assumptions C05_breakout_clears_regions_refuted_before_repair.
 
+(* ... and a block of two assignments had no value for the exit behaviour that ends it (switch exit_value_missing = the code before
+   context::pop_value_or_nil): on an empty part of the stack every value-taking behaviour except waitUntil - which then looked at
+   its round counter first - logged the error-level CallstackFoundNoValue, which ended the script.
+   diag_log str (isNil {a = 1; b = 2})   and   diag_log [1, [1, 2] apply {_y = _x}, 3]  (the second round starts on an empty part) *)
+Theorem C05_exit_value_missing_before_repair : forall b r c br b' r' c', exit_value_missing r = true -> takes_value b = true ->
+  c_frames c <> [] -> height c = top_base c -> (forall n, b <> BWaitUntil n) -> enact b r c = Ok (br, b', r', c') ->
+  r_out r' = EDiag (fst d_CallstackFoundNoValue) (snd d_CallstackFoundNoValue) :: r_out r /\ r_err r' = true.
+Proof. intros b r c br b' r' c' SW TV NE H NW E. eapply exit_value_missing_logs; try eassumption. split; assumption. Qed.
+Print Assumptions C05_exit_value_missing_before_repair.
+
+Definition prog_isnil_two : list stmt :=
+  [SExpr (EUnary "diag_log" (EUnary "str" (EUnary "isNil" (ECode [SAssign "a" (ENum 1); SAssign "b" (ENum 2)]))))].
+Definition prog_apply_second_round : list stmt :=
+  [SExpr (EUnary "diag_log" (EArr [ENum 1; EBinary "apply" (EArr [ENum 1; ENum 2]) (ECode [SAssign "_y" (EVar "_x")]); ENum 3]))].
+Theorem C05_exit_behaviour_finds_nil_refuted_before_repair :
+  final_of ["exit_value_missing"] prog_isnil_two = "2:3:1:60081,0:60001," /\
+  final_of [] prog_isnil_two = "-1:0:3:60019,M<true>,3:60095,M<VALUE nil>," /\
+  final_of ["exit_value_missing"] prog_apply_second_round = "2:3:1:60081,0:60001," /\
+  final_of [] prog_apply_second_round = "-1:0:3:60019,M<[1,[,],3]>,3:60095,M<VALUE nil>,".
+Proof. repeat split; vm_compute; reflexivity. Qed.
+Print Assumptions C05_exit_behaviour_finds_nil_refuted_before_repair.
+
 (* non-vacuity: a machine in the middle of [1, call {2; 3}, 4] satisfies the hypotheses *)
 Example ex_invariant_nontrivial :
   exists r, run_ops [OLoad (compile_block [SExpr (EArr [ENum 1; EUnary "call" (ECode [SExpr (ENum 2); SExpr (ENum 3)]); ENum 4])]);
@@ -112,3 +155,14 @@ Example ex_invariant_nontrivial :
                     (create_rt [] 0 0 (100 * 100) 150) = Ok r /\
             match r_ctxs r with c :: _ => length (c_frames c) = 2 /\ top_base c = 1 | [] => False end.
 Proof. eexists. split; [vm_compute; reflexivity|vm_compute; auto]. Qed.
+
+(* non-vacuity of C05_exit_behaviour_finds_nil: an isNil scope above two pending operands, its own part of the stack empty *)
+Example ex_exit_value_nontrivial :
+  let f := {| f_code := []; f_pos := 1; f_exit := Some BIsNil; f_err := None; f_vars := []; f_ns := "missionnamespace";
+              f_bubble := true; f_die := false; f_base := 2; f_scope := "" |} in
+  let c := {| c_frames := [f]; c_values := [VNum 1; VNum 2]; c_can_suspend := false; c_suspended := false; c_wakeup := 0%Z;
+              c_weak := false; c_terminate := false; c_id := 0 |} in
+  let r := create_rt [] 0 0 (100 * 100) 150 in
+  exit_value_missing r = false /\ takes_value BIsNil = true /\ c_frames c <> [] /\ height c = top_base c /\
+  enact BIsNil r c = Ok (BrOk, BIsNil, r, push_value c (VBool true)).
+Proof. cbv zeta. repeat split; try (vm_compute; reflexivity). discriminate. Qed.
